@@ -326,6 +326,32 @@ def large_m_balance(chk):
     log("[C17] large m (65537, 2^20, 2^24): offset low/high bits uniform, worst deviation/radius = %.3f" % worst)
 
 
+def full_passes_and_long_life(chk):
+    """complete passes at sizes around 2^20 that are not multiples of 2^16; one object through 140000 (draws, reset) cycles"""
+    out = os.path.join(chk.wd, "fullperm.json")
+    harness("c17", ["fullperm", "out=" + out, "seed=%d" % chk.seed], timeout=1500)
+    for c in json.load(open(out))["cases"]:
+        chk.add("evaluations", c["draws"])
+        if c.get("panic"):
+            chk.violation(dict(kind="full-pass", what="panic", m=c["m"]), dict(kind="full-pass", case=c, seed=chk.seed))
+        elif c["bad"]:
+            chk.violation(dict(kind="full-pass", what="not-a-permutation", m=c["m"]), dict(kind="full-pass", case=c, seed=chk.seed))
+    out = os.path.join(chk.wd, "longlife.json")
+    cycles = 140000 if chk.tier == "quick" else 400000
+    harness("c17", ["longlife", "out=" + out, "seed=%d" % chk.seed, "cycles=%d" % cycles], timeout=1500)
+    nchecks = 0
+    for c in json.load(open(out))["cases"]:
+        chk.add("evaluations", c["cycles"])
+        nchecks += c["checks"]
+        if c.get("panic"):
+            chk.violation(dict(kind="long-life", what="panic", m=c["m"]), dict(kind="long-life", case=c, seed=chk.seed))
+        elif c["bad"]:
+            chk.violation(dict(kind="long-life", what="history-after-reset", m=c["m"]), dict(kind="long-life", case=c, seed=chk.seed))
+    chk.cov["long_life_cycles"] = cycles
+    log("[C17] complete passes at m = 2^20+1, 1500001, 2^21-7, 70001 are permutations; one object through %d (draws, reset) cycles: "
+        "%d passes compared with a new object's" % (cycles, nchecks))
+
+
 def run(chk):
     build_harness("c17")
     p = plan(chk.tier)
@@ -347,6 +373,7 @@ def run(chk):
         record_and_validate(chk, i, rp, chk.seed + i)
     measures(chk, p["measure"])
     large_m_balance(chk)
+    full_passes_and_long_life(chk)
     chk.cov["exhaustive"] = True
     chk.cov["explanation"] = ("exhaustive for the listed state graphs and behaviour graphs; larger m (<= 64, one trace set up to "
                               "1024 in the thorough tier) sampled by recorded traces and metamorphic cases; a non-zero "
@@ -358,7 +385,17 @@ def replay(chk, path):
     sc = json.load(open(path))["scenario"]
     build_harness("c17")
     bad = False
-    if sc["kind"] == "harness":
+    if sc["kind"] in ("full-pass", "long-life"):
+        out = os.path.join(chk.wd, "replay_%s.json" % sc["kind"])
+        if sc["kind"] == "full-pass":
+            harness("c17", ["fullperm", "out=" + out, "seed=%d" % sc["seed"]], timeout=1500)
+        else:
+            harness("c17", ["longlife", "out=" + out, "seed=%d" % sc["seed"], "cycles=%d" % sc["case"]["cycles"]], timeout=1500)
+        for c in json.load(open(out))["cases"]:
+            if c["m"] == sc["case"]["m"]:
+                log(json.dumps(c)[:1500])
+                bad = bool(c["bad"]) or bool(c.get("panic"))
+    elif sc["kind"] == "harness":
         inf = os.path.join(chk.wd, "scenario.json")
         with open(inf, "w") as f:
             json.dump(sc["scenario"], f)
